@@ -157,6 +157,7 @@ type Engine struct {
 	mergeFail   map[*ssa.Function]int
 	ufCalls     []ufCall
 	crcMemo     map[string]*Term
+	lastClock   *Term
 	ghost       map[string]value
 	pipes       map[*value]*pipeState
 	timers      []*timerRec
@@ -726,6 +727,7 @@ func (e *Engine) runPath(it workItem) {
 	e.mergeDepth = 0
 	e.ufCalls = nil
 	e.crcMemo = nil
+	e.lastClock = nil
 	e.pipes = nil
 	e.timers = nil
 	e.locks = nil
